@@ -69,6 +69,19 @@ func sanitizeFile(s string) string {
 
 // smtText renders the query for obligation o. extra is appended before check-sat; tail after.
 func (e *Engine) smtText(o *Oblig, extra string, tail string) string {
+	return e.smtTextV(o, extra, tail, false)
+}
+
+func (e *Engine) hasLemmas(o *Oblig) bool {
+	for _, a := range e.assumps[:o.NAssump] {
+		if a.Tag == "lemma" {
+			return true
+		}
+	}
+	return false
+}
+
+func (e *Engine) smtTextV(o *Oblig, extra string, tail string, dropLemmas bool) string {
 	var sb strings.Builder
 	sb.WriteString("(set-option :produce-models true)\n(set-logic ALL)\n")
 	if e.ar.mode == ModeInt {
@@ -80,6 +93,9 @@ func (e *Engine) smtText(o *Oblig, extra string, tail string) string {
 		sb.WriteByte('\n')
 	}
 	for _, a := range e.assumps[:o.NAssump] {
+		if dropLemmas && a.Tag == "lemma" {
+			continue
+		}
 		sb.WriteString("(assert ")
 		sb.WriteString(a.T.S)
 		sb.WriteString(")\n")
@@ -147,6 +163,9 @@ func solveFile(file string, quickSec, fullSec int) SolveResult {
 		return r
 	}
 	first := r
+	if fullSec <= 0 {
+		return first
+	}
 	ctx, cancel := context.WithCancel(context.Background())
 	defer cancel()
 	ch := make(chan SolveResult, len(solvers))
@@ -190,6 +209,11 @@ func firstLines(s string, n int) string {
 
 // solveAll discharges all obligations of the results in parallel.
 func solveAll(results []*FuncResult, quickSec, fullSec int, par int) {
+	solveAllF(results, func(o *Oblig) (int, int) { return quickSec, fullSec }, par)
+}
+
+// solveAllF: per-obligation timeouts (quick stage, full race); full <= 0 skips the race.
+func solveAllF(results []*FuncResult, limits func(o *Oblig) (int, int), par int) {
 	initWorkDir()
 	type job struct {
 		e *Engine
@@ -215,8 +239,19 @@ func solveAll(results []*FuncResult, quickSec, fullSec int, par int) {
 					continue
 				}
 				os.WriteFile(file, []byte(text), 0o644)
-				r := solveFile(file, quickSec, fullSec)
+				q, f := limits(j.o)
+				r := solveFile(file, q, f)
 				j.o.Res = &r
+				if !r.Proved(j.o) && !j.o.WantSat && f > 0 && j.e.hasLemmas(j.o) {
+					// second attempt without the (proved) ghost assertions: fewer quantified facts
+					file2 := filepath.Join(workDir, sanitizeFile(j.o.Name)+".nolemma.smt2")
+					os.WriteFile(file2, []byte(j.e.smtTextV(j.o, "", "", true)), 0o644)
+					r2 := solveFile(file2, q, f)
+					if r2.Proved(j.o) {
+						r2.Solver += "(no-lemmas)"
+						j.o.Res = &r2
+					}
+				}
 			}
 		}()
 	}
